@@ -54,7 +54,8 @@ def run(tier):
     scs = []
     per = 40 if tier == "quick" else 100000
     for b in ZB:
-        for cs, hs in hists.items():
+        for cs, hs in sorted(hists.items()):
+            hs = sorted(hs)     # TLC prints in no particular order: the seed alone decides what is sampled
             pick = hs if len(hs) <= per else rnd.sample(hs, per)
             if b == "zarr_async_slow":
                 pick = [h for h in pick if "f" in h][: (12 if tier == "quick" else 300)]
